@@ -63,6 +63,8 @@ def variant_kwargs(cls, crng):
         for k in ("strip_fragment", "quoted"):
             if crng.random() < 0.4:
                 kw[k] = crng.random() < 0.5
+        if crng.random() < 0.3:
+            kw["default_protocol"] = crng.choice(["http", "https", "ftp"])
     elif cls == "NormalizedLRUTrie":
         for k in ("strip_trailing_slash", "sort_query", "strip_index", "normalize_amp", "infer_redirection", "strip_irrelevant_subdomains", "quoted", "strip_protocol", "strip_authentication"):
             if crng.random() < 0.3:
